@@ -403,4 +403,22 @@ def main():
     varrays(rnd, thorough)
 
 
-main()
+def guarded_main():
+    """An exception that escapes from the imath module into this driver (which is written against the documented API and runs
+    clean on the unchanged tree) must not look like an infrastructure failure: report it and exit with the code the check
+    driver treats like a crash of the code under test (re-run once, then VIOLATION)."""
+    import os
+    import traceback
+    try:
+        main()
+    except SystemExit:
+        raise
+    except BaseException:  # noqa
+        sys.stdout.flush()
+        traceback.print_exc()
+        sys.stderr.write("driver terminated by an exception escaping from the module under test\n")
+        sys.stderr.flush()
+        os._exit(86)
+
+
+guarded_main()
